@@ -83,6 +83,7 @@ def main(argv=None):
     prop = a.target
 
     if a.replay:
+        os.environ.setdefault("VERIF_RUN_TIMEOUT_S", "1800")  # a replay may come from the thorough tier
         ok, v, digest, same_digest, res = runner.replay_file(machine, a.replay, prop)
         if a.trace:
             for line in res.get("trace", []):
@@ -98,6 +99,7 @@ def main(argv=None):
 
     seed = a.seed if a.seed is not None else int(os.environ.get("VERIF_SEED", DEFAULT_SEED[a.tier]))
     budget = a.budget if a.budget is not None else float(os.environ.get("VERIF_BUDGET_S", DEFAULT_BUDGET[a.tier]))
+    os.environ["VERIF_TIER_EFFECTIVE"] = a.tier
     t0 = time.time()
     print(f"check {prop} machine={machine.name} tier={a.tier} VERIF_SEED={seed} budget={budget}s jobs={a.jobs} "
           f"repo={_host.REPO}")
